@@ -21,7 +21,8 @@ VARIABLES l,        \* position in the trace
           peak,     \* peak number of physically stored entries since reset
           cap0,     \* capacity hint of the instance
           stale,    \* T is older than the previous event (that event shipped no snapshot)
-          gaps      \* some event since reset shipped no snapshot: the peak population is unknown
+          gaps,     \* some event since reset shipped no snapshot: the peak population is unknown
+          every     \* the instance ships its snapshot with every n-th call (1 = always)
 
 R == INSTANCE KeyExpRef
 
@@ -67,14 +68,14 @@ Outcome == Ev.out
 Bind == IF Has("snap") THEN FromSnap(Ev.snap) ELSE T
 
 StepReset ==
-  /\ ents' = {} /\ now' = 0 /\ peak' = 0 /\ cap0' = Ev.cap /\ stale' = FALSE /\ gaps' = FALSE
+  /\ ents' = {} /\ now' = 0 /\ peak' = 0 /\ cap0' = Ev.cap /\ stale' = FALSE /\ gaps' = FALSE /\ every' = IF Has("se") THEN Ev.se ELSE 1
   /\ hasSnap' = Has("snap")
   /\ T' = IF Has("snap") THEN FromSnap(Ev.snap) ELSE NoTree
   /\ (Has("snap") => Structure(T', 0, Ev.cap) /\ V("CLEARED", RangeOK(T') /\ Phys(T') = {}, "a new tree stores entries"))
 
 StepLoad ==
   /\ T' = FromSnap(Ev.snap)
-  /\ hasSnap' = TRUE /\ stale' = FALSE /\ gaps' = FALSE
+  /\ hasSnap' = TRUE /\ stale' = FALSE /\ gaps' = FALSE /\ every' = IF Has("se") THEN Ev.se ELSE 1
   /\ cap0' = Ev.cap
   /\ now' = Ev.now
   /\ ents' = IF RangeOK(T') THEN Phys(T') ELSE {}
@@ -164,8 +165,11 @@ StepOp ==
   /\ hasSnap' = hasSnap /\ cap0' = cap0
   /\ stale' = (hasSnap /\ ~Has("snap") /\ Ev.op # "export")
   /\ gaps' = (gaps \/ (hasSnap /\ ~Has("snap") /\ Ev.op # "export"))
-  /\ peak' = NewPeak
+  /\ peak' = NewPeak /\ every' = every
   /\ DriftCheck
+  \* binding: an instance that ships every snapshot must ship it with every call that returned
+  /\ (hasSnap /\ every = 1 /\ ~Has("snap") /\ Ev.op \notin {"export", "exportn"} /\ Ev.out \in {"ok", "unwound"}
+        => Breach(<<"snapshot missing: the structural predicates are unbound", Ev.op>>))
   /\ CASE Outcome = "ok" -> OpOk
        [] Outcome = "unwound" -> OpUnwound
        [] OTHER -> /\ Unchanged     \* panic / aborted / timeout: no behaviour of the specification
@@ -177,11 +181,11 @@ Step ==
   /\ CASE Ev.ev = "reset" -> StepReset
        [] Ev.ev = "load"  -> StepLoad
        [] Ev.ev = "op"    -> StepOp
-       [] OTHER -> UNCHANGED <<ents, now, T, hasSnap, peak, cap0, stale, gaps>> /\ Breach(<<"unknown event", Ev.ev>>)
+       [] OTHER -> UNCHANGED <<ents, now, T, hasSnap, peak, cap0, stale, gaps, every>> /\ Breach(<<"unknown event", Ev.ev>>)
 
-Init == l = 1 /\ ents = {} /\ now = 0 /\ T = NoTree /\ hasSnap = FALSE /\ peak = 0 /\ cap0 = 0 /\ stale = FALSE /\ gaps = FALSE
+Init == l = 1 /\ ents = {} /\ now = 0 /\ T = NoTree /\ hasSnap = FALSE /\ peak = 0 /\ cap0 = 0 /\ stale = FALSE /\ gaps = FALSE /\ every = 1
 
-Spec == Init /\ [][Step]_<<l, ents, now, T, hasSnap, peak, cap0, stale, gaps>>
+Spec == Init /\ [][Step]_<<l, ents, now, T, hasSnap, peak, cap0, stale, gaps, every>>
 
 \* every event was consumed
 Accepted ==
